@@ -328,10 +328,29 @@ fn monotone(case_seed: u64, r: &mut Report) {
                         batch.push(Upd { member: mm, inc, ts, health: 1 + rng.below(2) as u8 });
                     }
                 }
-                desc = format!("merge {:?}", batch);
+                // through the manager the Sync comes from the outside observer or, half of the time,
+                // from one of the observed members (which then often reports on itself: handle_sync
+                // merges the batch *and* marks the sender alive - neither may move anything backwards)
+                let sender_member: Option<u8> = if use_mgr && rng.bool() { Some(rng.below(members as usize) as u8) } else { None };
+                if let Some(sm) = sender_member {
+                    if rng.bool() {
+                        batch[0].member = sm;
+                        batch[0].inc = batch[0].inc.min(ann[sm as usize]);
+                        if batch[0].health == 0 {
+                            // an announcement by the sender itself
+                            batch[0].inc = ann[sm as usize];
+                        }
+                    }
+                    r.count("monotone_syncs_sent_by_an_observed_member", 1);
+                    if batch.iter().any(|u| u.member == sm && u.health != 0) {
+                        r.count("monotone_syncs_in_which_the_sender_reports_itself_unhealthy", 1);
+                    }
+                }
+                desc = format!("merge {:?}{}", batch, sender_member.map(|m| format!(" sent by {}", mname(m))).unwrap_or_default());
                 let states: Vec<GossipNodeState> = batch.iter().map(to_state).collect();
                 if use_mgr {
-                    mgr.handle_gossip(GossipMessage::Sync { sender: "obs".into(), states, sender_time: rng.below(40) as u64 });
+                    let sender = sender_member.map(mname).unwrap_or_else(|| "obs".to_string());
+                    mgr.handle_gossip(GossipMessage::Sync { sender, states, sender_time: rng.below(40) as u64 });
                 } else {
                     st.merge(&states);
                 }
@@ -631,10 +650,10 @@ fn main() {
         rule: "conv-exhaustive: every multiset of <=N (quick 4, thorough 5) updates over 2 members x incarnation{0,1,2} x timestamp{1,2} x {Healthy,Degraded,Failed}, each delivered in every permutation x every batching (+ full re-delivery) to a fresh real LWWMembershipState and compared with the canonical delivery; conv-random: 3-10 updates over 2-4 members (incl. Unknown health), sampled permutations/batchings/duplications through merge and through GossipMembershipManager::handle_gossip(Sync); monotone: random programs of merges and local events (suspicions may name incarnations nobody announced; through the manager also add_peer of members already learned through gossip, and gossip rounds that expire pending suspicions - 1 ms suspicion timeout in half of those cases) with per-call checks; hlc: random programs of now / receive (wall before, equal to, after the clock's; arbitrary logical counters) / clock jumps on the real HybridLogicalClock, every issued timestamp compared with the previous one. A case is distinct by the hash of its update multiset / trace and non-trivial if at least two different updates concern the same member (so order can matter).",
         assumptions: vec![
             "views are compared on (health, incarnation) per member, as the statement says; timestamps and wall-clock stamps are not compared".into(),
-            "manager convergence uses a sender that is not an observed member, because handle_sync additionally marks the *sender* healthy with a local timestamp (a local event, not a membership update)".into(),
+            "manager convergence uses a sender that is not an observed member, because handle_sync additionally marks the *sender* healthy with a local timestamp (a local event, not a membership update); the monotonicity programs do send half of their Syncs from observed members (often reporting on themselves), since nothing may move backwards across any call".into(),
             "update_local is only called for a member's own non-decreasing incarnation (how the manager uses it)".into(),
         ],
-        floors: if args.replay.is_some() { vec![] } else { vec![("exhaustive_multisets", 5_000), ("random_multisets", 500), ("monotone_programs", 500), ("deliveries", 100_000), ("hlc_timestamps_checked", 50_000), ("hlc_same_wall_steps", 5_000)] },
+        floors: if args.replay.is_some() { vec![] } else { vec![("exhaustive_multisets", 5_000), ("random_multisets", 500), ("monotone_programs", 500), ("deliveries", 100_000), ("hlc_timestamps_checked", 50_000), ("hlc_same_wall_steps", 5_000), ("monotone_syncs_sent_by_an_observed_member", 300), ("monotone_syncs_in_which_the_sender_reports_itself_unhealthy", 60)] },
         exhaustive: false,
     };
     write_result(&args, &meta, &total, started);
